@@ -1843,12 +1843,15 @@ func (h *c16H) final() {
 	}
 	gone := false
 	deadline := time.Now().Add(c16Timeout)
-	for time.Now().Before(deadline) && !h.stop() {
+	for step := 53 * time.Millisecond; time.Now().Before(deadline) && !h.stop(); {
 		if h.b.clients[c16ID] == nil {
 			gone = true
 			break
 		}
-		r.Sleep(50 * time.Millisecond)
+		r.Sleep(step)
+		if step < time.Minute {
+			step *= 2
+		}
 	}
 	if !gone {
 		r.Violate("C16.admin-delete.client-still-registered", "after DELETE of session %s through the admin handler the client stays in b.clients. %s\n%s", c16ID, ctx(), h.history())
